@@ -51,6 +51,8 @@ func init() {
 			{ID: "C03-R19", Title: "results of reflect.Value.Interface() are not asserted blindly", Floor: 1, Run: reflectedValuesNotAssertedBlindly},
 			{ID: "C03-R20", Title: "reflect.TypeOf of a handed-in value is guarded against nil", Floor: 1, Run: typeOfGuardedAgainstNil},
 			{ID: "C03-R21", Title: "integers are divided only by tested or constant divisors on the unprotected surface", Floor: 1, Run: integerDivisionGuarded},
+			{ID: "C03-R22", Title: "the visit record is threaded through the recursion", Floor: 3, Run: visitIsThreadedThroughRecursion},
+			{ID: "C03-R23", Title: "error results are not typed nils", Floor: 1, Run: errorResultsAreNotTypedNils},
 		},
 	})
 }
